@@ -54,10 +54,17 @@ def cases(tier):
     return cs
 
 
+class AcceptedThenFailed(Exception):
+    """the file was opened without error but reading its atoms failed"""
+
+
 def _read_all(fobj):
     from gaddlemaps.parsers import GroFile
-    g = GroFile(fobj)
-    recs = g.readlines()
+    g = GroFile(fobj)                  # opening must already reject an incomplete file
+    try:
+        recs = g.readlines()
+    except Exception as e:
+        raise AcceptedThenFailed('%s: %s' % (type(e).__name__, str(e)[:60]))
     return [tuple(r) for r in recs], g.natoms
 
 
@@ -72,6 +79,19 @@ def run_case(case):
     recs = _records(n, vel)
     if case['mode'] == 'crash':
         text, ops = write_gro_text(recs, box=box, declare=declare, position_format=case.get('fmt'), oplog=True)
+        import os, tempfile
+        tmpd = tempfile.mkdtemp(prefix='c14-')
+
+        def on_disk(content):
+            # crash points are concrete contents: they are read through a real file (no file model involved)
+            pth = os.path.join(tmpd, 'partial.gro')
+            with open(pth, 'w') as fh:
+                fh.write(content)
+            return pth
+
+        class _Path(str):
+            pass
+        MemFile = lambda content: on_disk(content)      # noqa: shadow - GroFile(path) opens and closes the real file
         full, nat = _read_all(MemFile(text))
         ok_full = len(full) == n
         records.append({'name': 'complete file is read back with %d records' % n, 'status': 'validated' if ok_full else 'error', 'secs': 0})
@@ -82,6 +102,8 @@ def run_case(case):
             try:
                 got, _ = _read_all(MemFile(partial))
                 accepted = True
+            except AcceptedThenFailed as e:
+                accepted, got = True, 'opened without error, then %s' % e
             except Exception as e:
                 accepted = False
                 err = type(e).__name__
@@ -95,10 +117,19 @@ def run_case(case):
             else:
                 records.append({'name': desc + ': rejected (%s)' % err, 'status': 'unsat', 'secs': 0})
         samples.append({'operations': [str(o)[:60] for o in ops][:8]})
+        import shutil
+        shutil.rmtree(tmpd, ignore_errors=True)
         return {'records': records, 'paths': st['paths'], 'queries': 0, 'solver_s': 0, 'samples': samples, 'nontrivial': nontrivial}
 
     text = write_gro_text(recs, box=box, declare=declare, position_format=case.get('fmt'))
-    full, nat = _read_all(MemFile(text))
+    try:
+        full, nat = _read_all(MemFile(text))
+    except Exception as e:
+        import io
+        if isinstance(e, (io.UnsupportedOperation, AttributeError)):
+            return {'records': [{'name': 'the reader uses the file through an interface the file model does not provide (%s: %s): symbolic truncation not applicable to this tree' % (type(e).__name__, e),
+                                 'status': 'unknown', 'secs': 0}], 'paths': 0, 'queries': 0, 'solver_s': 0, 'samples': [], 'nontrivial': []}
+        raise
     records.append({'name': 'translator validation: file model vs complete file (%d records read back)' % len(full),
                     'status': 'validated' if len(full) == n else 'error', 'secs': 0})
     L = len(text)
@@ -111,7 +142,9 @@ def run_case(case):
         try:
             got = _read_all(f)
             return ('accepted', got[0], f.looks)
-        except (IOError, ValueError, IndexError, StopIteration) as e:
+        except AcceptedThenFailed as e:
+            return ('accepted', 'opened without error, then ' + str(e), f.looks)
+        except Exception as e:
             return ('rejected', type(e).__name__ + ': ' + str(e)[:60], f.looks)
 
     cover = []
@@ -185,15 +218,18 @@ def replay(w):
         box_start = text.rfind('\n', 0, len(text) - 1) + 1
         try:
             g = GroFile(p)
+        except Exception as e:
+            return {'reproduced': False, 'what': 'rejected with %s' % type(e).__name__, 'detail': {}}
+        try:
             got = [tuple(r) for r in g.readlines()]
             g.close()
         except Exception as e:
-            return {'reproduced': False, 'what': 'rejected with %s' % type(e).__name__, 'detail': {}}
+            got = 'opened without error, then %s while reading the atoms' % type(e).__name__
         bad = []
         if len(partial) <= box_start:
-            bad.append('file ending before its box line accepted (%d atoms returned)' % len(got))
+            bad.append('file ending before its box line accepted (%s)' % (('%d atoms returned' % len(got)) if isinstance(got, list) else got))
         if got != full:
-            bad.append('accepted file returns %d records instead of %d identical ones' % (len(got), len(full)))
+            bad.append('accepted file returns %s instead of the %d records of the complete file' % (('%d records' % len(got)) if isinstance(got, list) else got, len(full)))
         return {'reproduced': bool(bad), 'what': 'partial .gro file (%s): %s' % (where, '; '.join(bad)), 'detail': {'partial_tail': partial[-80:]}}
     finally:
         for q in (p, full_p):
